@@ -98,10 +98,11 @@ theorem makeAlias_facts {cx : AliasCtx} {ar ar' : AR} {d0 d1 : String} {neg drop
                 exact hsw ⟨this.1, this.2, hin⟩
               · simp at h
 
-/-- every member of a recorded class is a variable of the model, and the members other than the
-    canonical variable are algebraic -/
+/-- the members of a recorded class other than its canonical variable are never protected variables
+    (states, derivatives, inputs, parameters, constants): they are algebraic, or were eliminated by an
+    earlier pass -/
 def JInv (cx : AliasCtx) (s : AR) : Prop :=
-  ∀ x A, s.al x = some A → ∀ y ∈ A, y.2 ∈ cx.allSt ∧ (y.2 ≠ (s.canonicalSigned x).1 → y.2 ∈ cx.algs)
+  ∀ x A, s.al x = some A → ∀ y ∈ A, y.2 ≠ (s.canonicalSigned x).1 → y.2 ∉ cx.doNotEliminate
 
 theorem jinv_empty (cx : AliasCtx) : JInv cx AR.empty := by
   intro x A hx; simp [AR.empty] at hx
@@ -120,13 +121,12 @@ theorem algs_sub_allSt {cx : AliasCtx} {n : String} (h : n ∈ cx.algs) : n ∈ 
   simp only [AliasCtx.allSt, List.mem_append]; exact Or.inl (Or.inl (Or.inl (Or.inr h)))
 
 /-- members of the class of `x` (trivial or not) under `JInv` -/
-theorem jinv_aliases {cx : AliasCtx} {s : AR} (h : WF s) (hj : JInv cx s) {x y : SName} (hx : x.2 ∈ cx.allSt) (hy : y ∈ s.aliases x) :
-    y.2 ∈ cx.allSt ∧ (y.2 ≠ (s.canonicalSigned x).1 → y.2 ∈ cx.algs) := by
+theorem jinv_aliases {cx : AliasCtx} {s : AR} (h : WF s) (hj : JInv cx s) {x y : SName} (hy : y ∈ s.aliases x) :
+    y.2 ≠ (s.canonicalSigned x).1 → y.2 ∉ cx.doNotEliminate := by
   unfold AR.aliases at hy
   cases hal : s.al x with
   | none =>
     simp [hal] at hy; subst hy
-    refine ⟨hx, ?_⟩
     intro hne
     exfalso; apply hne
     simp [AR.canonicalSigned, h.cm_none y hal]
@@ -134,10 +134,11 @@ theorem jinv_aliases {cx : AliasCtx} {s : AR} (h : WF s) (hj : JInv cx s) {x y :
     simp [hal] at hy
     exact hj x A hal y hy
 
-/-- `_make_alias`'s `add` keeps `JInv`: the canonical variable it unseats is algebraic -/
-theorem jinv_add {cx : AliasCtx} {s s' : AR} {d0 d1 : String} {neg : Bool} {alg other : String}
-    (h : WF s) (hj : JInv cx s) (hf : AddFacts cx s s' d0 d1 neg alg other) : WF s' ∧ JInv cx s' ∧ elimCount s' = elimCount s + 1 := by
-  -- the call is effective and admissible
+/-- `_make_alias`'s `add` keeps `WF`, `JInv` and `Ext`, and counts one more eliminated name: the canonical
+    variable it unseats is not a protected one -/
+theorem jinv_add {cx : AliasCtx} {old s s' : AR} {d0 d1 : String} {neg : Bool} {alg other : String}
+    (h : WF s) (hj : JInv cx s) (he : Ext old s) (hf : AddFacts cx s s' d0 d1 neg alg other) :
+    WF s' ∧ JInv cx s' ∧ Ext old s' ∧ elimCount s' = elimCount s + 1 := by
   have hb : ((neg, alg) : SName) ∉ s.aliases (false, other) := by
     intro hin
     have := h.aliases_symm hin
@@ -153,26 +154,22 @@ theorem jinv_add {cx : AliasCtx} {s s' : AR} {d0 d1 : String} {neg : Bool} {alg 
     · exact hf.unrel2 (by simpa [tog] using this)
     · exact hf.unrel1 (by simpa [tog] using this)
   have hwf := h.add_wf hb hadm hf.add
-  refine ⟨hwf, ?_, elimCount_add h hb hadm hf.add⟩
+  refine ⟨hwf, ?_, he.add h hb hf.add, elimCount_add h hb hadm hf.add⟩
   -- the canonical variable of alg's class is not protected
   have hcanon_alg : (s.canonicalSigned (false, alg)).1 ∉ cx.doNotEliminate := by
     by_cases ho : other ∈ cx.algs
     · rcases hf.swap ho with h1 | h1
       · exact h1
       · exact fun h2 => hf.not_both ⟨h2, h1⟩
-    · -- other is not algebraic: it is the canonical variable of its own class
-      have hmem := h.canon_mem (false, other)
-      have := (jinv_aliases h hj (x := (false, other)) hf.other_mem hmem).2
-      have hself : (s.canonicalSigned (false, other)).1 = other := by
-        by_cases he : (s.canonicalSigned (false, other)).1 = other
-        · exact he
-        · -- the canonical member would differ from `other` and `other` would be algebraic
-          have hso := jinv_aliases h hj (x := (false, other)) hf.other_mem (h.aliases_self (false, other))
-          exact absurd (hso.2 (fun e => he e.symm)) ho
+    · -- other is protected: it is the canonical variable of its own class
       have hod : other ∈ cx.doNotEliminate := by
         by_cases hd : other ∈ cx.doNotEliminate
         · exact hd
         · exact absurd (alg_of_not_dne hf.other_mem hd) ho
+      have hself : (s.canonicalSigned (false, other)).1 = other := by
+        by_cases hse : (s.canonicalSigned (false, other)).1 = other
+        · exact hse
+        · exact absurd hod (jinv_aliases h hj (x := (false, other)) (h.aliases_self (false, other)) (fun e => hse e.symm))
       intro h2
       exact hf.not_both ⟨h2, by rw [hself]; exact hod⟩
   have hcb_base : (s.canonicalSigned (neg, alg)).1 = (s.canonicalSigned (false, alg)).1 := by
@@ -180,23 +177,15 @@ theorem jinv_add {cx : AliasCtx} {s s' : AR} {d0 d1 : String} {neg : Bool} {alg 
     · rfl
     · have := h.canon_tog (false, alg)
       simpa [tog] using congrArg Prod.fst this
-  -- members of the joined class
   have hmemA : ∀ y ∈ s.aliases (false, other) ++ s.aliases (neg, alg),
-      y.2 ∈ cx.allSt ∧ (y.2 ≠ (s.canonicalSigned (false, other)).1 → y.2 ∈ cx.algs) := by
+      y.2 ≠ (s.canonicalSigned (false, other)).1 → y.2 ∉ cx.doNotEliminate := by
     intro y hy
     rcases List.mem_append.1 hy with hy | hy
-    · exact jinv_aliases h hj (x := (false, other)) hf.other_mem hy
-    · have hx : ((neg, alg) : SName).2 ∈ cx.allSt := algs_sub_allSt hf.alg_mem
-      have := jinv_aliases h hj (x := (neg, alg)) hx hy
-      refine ⟨this.1, fun _ => ?_⟩
-      by_cases he : y.2 = (s.canonicalSigned (neg, alg)).1
-      · rw [he, hcb_base]
-        have hm := h.canon_mem (neg, alg)
-        have hin := (jinv_aliases h hj (x := (neg, alg)) hx hm).1
-        simp only at hin
-        rw [hcb_base] at hin
-        exact alg_of_not_dne hin hcanon_alg
-      · exact this.2 he
+    · exact jinv_aliases h hj hy
+    · intro _
+      by_cases hye : y.2 = (s.canonicalSigned (neg, alg)).1
+      · rw [hye, hcb_base]; exact hcanon_alg
+      · exact jinv_aliases h hj hy hye
   intro x B hx y hy
   have hyB : y ∈ s'.aliases x := by simp [AR.aliases, hx, hy]
   by_cases hxA : x ∈ s.aliases (false, other) ++ s.aliases (neg, alg)
@@ -206,8 +195,7 @@ theorem jinv_add {cx : AliasCtx} {s s' : AR} {d0 d1 : String} {neg : Bool} {alg 
     rw [e2]
     exact hmemA y hyB
   · by_cases hxA' : tog x ∈ s.aliases (false, other) ++ s.aliases (neg, alg)
-    · -- the negated class: same base names
-      have hty : tog y ∈ s'.aliases (tog x) := by
+    · have hty : tog y ∈ s'.aliases (tog x) := by
         rw [hwf.aliases_tog x]; exact List.mem_map_of_mem hyB
       rw [add_aliases_in h hb hadm hf.add hxA'] at hty
       have := hmemA (tog y) hty
@@ -218,8 +206,7 @@ theorem jinv_add {cx : AliasCtx} {s s' : AR} {d0 d1 : String} {neg : Bool} {alg 
         rw [e3, e2]
       rw [hbase]
       simpa [tog] using this
-    · have e1 := add_aliases_out h hb hadm hf.add hxA hxA'
-      have hold : s.al x = some B := by
+    · have hold : s.al x = some B := by
         have := add_eq hb hf.add
         rw [this] at hx
         simpa [hxA, hxA'] using hx
@@ -230,11 +217,11 @@ theorem jinv_add {cx : AliasCtx} {s s' : AR} {d0 d1 : String} {neg : Bool} {alg 
       exact hj x B hold y hy
 
 /-- the detection loop keeps the invariants and counts one eliminated name per dropped equation -/
-theorem aliasLoop_inv (E : Engine K) (cx : AliasCtx) : ∀ (es : List (Ex K)) (i : Nat) (ar : AR) (r : List (Ex K) × AR),
-    aliasLoop E cx i es ar = .ok r → WF ar → JInv cx ar →
-    WF r.2 ∧ JInv cx r.2 ∧ elimCount r.2 + r.1.length = elimCount ar + es.length
-  | [], i, ar, r, h, hw, hj => by simp [aliasLoop] at h; subst h; exact ⟨hw, hj, by simp⟩
-  | e :: es, i, ar, r, h, hw, hj => by
+theorem aliasLoop_inv (E : Engine K) (cx : AliasCtx) (old : AR) : ∀ (es : List (Ex K)) (i : Nat) (ar : AR) (r : List (Ex K) × AR),
+    aliasLoop E cx i es ar = .ok r → WF ar → JInv cx ar → Ext old ar →
+    WF r.2 ∧ JInv cx r.2 ∧ Ext old r.2 ∧ elimCount r.2 + r.1.length = elimCount ar + es.length
+  | [], i, ar, r, h, hw, hj, he => by simp [aliasLoop] at h; subst h; exact ⟨hw, hj, he, by simp⟩
+  | e :: es, i, ar, r, h, hw, hj, he => by
     simp only [aliasLoop] at h
     split at h
     · rename_i d0 d1 neg hdet
@@ -243,24 +230,24 @@ theorem aliasLoop_inv (E : Engine K) (cx : AliasCtx) : ∀ (es : List (Ex K)) (i
       · rename_i ar2 hmk
         rcases makeAlias_facts hmk with ⟨_, hf⟩ | ⟨_, alg, other, hf⟩
         · simp at hf
-        · obtain ⟨w2, j2, c2⟩ := jinv_add hw hj hf
-          obtain ⟨w3, j3, c3⟩ := aliasLoop_inv E cx es (i + 1) ar2 r h w2 j2
-          exact ⟨w3, j3, by simp only [List.length_cons]; omega⟩
+        · obtain ⟨w2, j2, e2, c2⟩ := jinv_add hw hj he hf
+          obtain ⟨w3, j3, e3, c3⟩ := aliasLoop_inv E cx old es (i + 1) ar2 r h w2 j2 e2
+          exact ⟨w3, j3, e3, by simp only [List.length_cons]; omega⟩
       · rename_i ar2 hmk
         rcases makeAlias_facts hmk with ⟨rfl, _⟩ | ⟨hf, _⟩
         · split at h
           · simp at h
           · rename_i r' hr'
             simp at h; subst h
-            obtain ⟨w3, j3, c3⟩ := aliasLoop_inv E cx es (i + 1) ar2 r' hr' hw hj
-            exact ⟨w3, j3, by simp only [List.length_cons]; omega⟩
+            obtain ⟨w3, j3, e3, c3⟩ := aliasLoop_inv E cx old es (i + 1) ar2 r' hr' hw hj he
+            exact ⟨w3, j3, e3, by simp only [List.length_cons]; omega⟩
         · simp at hf
     · split at h
       · simp at h
       · rename_i r' hr'
         simp at h; subst h
-        obtain ⟨w3, j3, c3⟩ := aliasLoop_inv E cx es (i + 1) ar r' hr' hw hj
-        exact ⟨w3, j3, by simp only [List.length_cons]; omega⟩
+        obtain ⟨w3, j3, e3, c3⟩ := aliasLoop_inv E cx old es (i + 1) ar r' hr' hw hj he
+        exact ⟨w3, j3, e3, by simp only [List.length_cons]; omega⟩
 
 /-! ## what the elimination loop walks over (first pass: nothing was handled before) -/
 
@@ -343,81 +330,75 @@ theorem elimAliases_length (old ar : AR) : ∀ (cs allSt : List String) (r : Lis
 
 theorem elimCount_empty : elimCount AR.empty = 0 := by simp [elimCount, AR.empty]
 
-/-- the eliminated names of a first pass: algebraic, and never a canonical variable -/
-theorem first_pass_eliminated {cx : AliasCtx} {ar : AR} (hw : WF ar) (hj : JInv cx ar) {c : String} (hc : c ∈ ar.cv)
-    {a : SName} (ha : a ∈ newAliases AR.empty ar c) : a.2 ∈ cx.algs ∧ a.2 ∉ ar.cv := by
-  rw [newAliases_first hw] at ha
-  obtain ⟨hmem, hne⟩ := List.mem_filter.1 ha
-  have hne' : a ≠ (false, c) := by simpa using hne
-  have hcm := (hw.cv_iff c).1 hc
-  have hcs : ar.canonicalSigned (false, c) = (c, false) := by simp [AR.canonicalSigned, hcm]
-  have hbase : a.2 ≠ c := by
-    intro e
-    obtain ⟨sg, n⟩ := a
-    simp only at e; subst e
-    cases sg
-    · exact hne' rfl
-    · exact hw.aliases_noself (false, n) (by simpa [tog] using hmem)
-  cases hal : ar.al (false, c) with
-  | none => rw [hw.cm_none _ hal] at hcm; simp at hcm
-  | some A =>
-    have hmA : a ∈ A := by simpa [AR.aliases, hal] using hmem
-    have := (hj (false, c) A hal a hmA).2
-    rw [hcs] at this
-    refine ⟨this hbase, ?_⟩
-    intro hcv
-    -- a canonical name has itself as canonical variable, a member of c's class has c
-    have hcm2 := (hw.cv_iff a.2).1 hcv
-    have h1 : ar.canonicalSigned (false, a.2) = (a.2, false) := by simp [AR.canonicalSigned, hcm2]
-    have h2 : ar.canonicalSigned a = (c, false) := by rw [hw.canon_class hmem, hcs]
-    obtain ⟨sg, n⟩ := a
-    cases sg
-    · rw [h1] at h2; exact hbase (by simpa using congrArg Prod.fst h2)
-    · have h3 := hw.canon_tog (false, n)
-      rw [h1] at h3
-      have : tog (false, n) = (true, n) := rfl
-      rw [this, h2] at h3
-      exact hbase (by simpa using (congrArg Prod.fst h3).symm)
+/-- the names a pass eliminates: never protected, never canonical -/
+theorem eliminated_now {cx : AliasCtx} {old ar : AR} (ho : WF old) (hw : WF ar) (hj : JInv cx ar) {c : String} (hc : c ∈ ar.cv)
+    {a : SName} (ha : a ∈ newAliases old ar c) : a.2 ∉ cx.doNotEliminate ∧ a.2 ∉ ar.cv := by
+  rw [ho.newAliases_eq hw] at ha
+  have har : a ∈ classRest ar c := (List.mem_filter.1 ha).1
+  have hb := hw.rest_base hc har
+  refine ⟨?_, hb.2⟩
+  have hmem := (List.mem_filter.1 har).1
+  have := jinv_aliases hw hj hmem
+  rw [hw.cv_canon hc] at this
+  exact this hb.1
 
-/-- `balance_step` for a first detect_aliases pass (empty alias relation, distinct variable names) -/
-theorem alias_balanced_first {E : Engine K} {allowDer : Bool} {m m' : Model K} (hempty : m.ar = AR.empty)
+theorem first_pass_eliminated {cx : AliasCtx} {ar : AR} (hw : WF ar) (hj : JInv cx ar) {c : String} (hc : c ∈ ar.cv)
+    {a : SName} (ha : a ∈ newAliases AR.empty ar c) : a.2 ∉ cx.doNotEliminate ∧ a.2 ∉ ar.cv :=
+  eliminated_now wf_empty hw hj hc ha
+
+/-- `balance_step` for detect_aliases, any pass: the alias relation the pass starts from satisfies its
+    invariant (`WF`, `JInv`: what the previous pass leaves), variable names are distinct -/
+theorem alias_balanced {E : Engine K} {allowDer : Bool} {m m' : Model K} (ho : WF m.ar)
+    (hjo : JInv ⟨names m.states, names m.ders, names m.algs, names m.inputs, names m.params, names m.consts, allowDer⟩ m.ar)
     (hnd : (names m.states ++ names m.ders ++ names m.algs ++ names m.inputs ++ names m.params ++ names m.consts).Nodup)
     (h : detectAliases E allowDer m = .ok m') : Balanced m m' := by
   refine alias_balanced_of_count h hnd ?_
   intro kept ar l left hloop hel
-  rw [hempty] at hloop hel
-  obtain ⟨hw, hj, hcnt⟩ := aliasLoop_inv E _ m.eqs 0 AR.empty (kept, ar) hloop wf_empty (jinv_empty _)
-  obtain ⟨hlen, hdom⟩ := elimAliases_length AR.empty ar ar.cv _ (l, left) hel hnd
-  have hsum : (ar.cv.map fun c => (newAliases AR.empty ar c).length).sum = elimCount ar := by
-    unfold elimCount
-    congr 1
-    apply List.map_congr_left
-    intro c _
-    exact newAliases_first_length hw c
-  rw [elimCount_empty] at hcnt
-  simp only at hcnt hlen
+  obtain ⟨hw, hj, hext, hcnt⟩ := aliasLoop_inv E _ m.ar m.eqs 0 m.ar (kept, ar) hloop ho hjo (Ext.refl _)
+  obtain ⟨hlen, hdom⟩ := elimAliases_length m.ar ar ar.cv _ (l, left) hel hnd
+  obtain ⟨_, _, _, s4, _, _⟩ := elimAliases_spec m.ar ar ar.cv _ (l, left) hel hnd
+  have hw' : WF ar := hw
+  have hext' : Ext m.ar ar := hext
+  have hcnt' : elimCount ar + kept.length = elimCount m.ar + m.eqs.length := hcnt
+  have hlen' : l.length = (ar.cv.map fun c => (newAliases m.ar ar c).length).sum := hlen
+  have hnow := elim_now_count ho hw' hext'
   refine ⟨by omega, ?_⟩
   intro x hx
   obtain ⟨p, hp, rfl⟩ := List.mem_map.1 hx
   obtain ⟨c, hc, a, ha, hpa⟩ := hdom p hp
-  rw [hpa]
-  exact (first_pass_eliminated hw hj hc ha).1
+  have hin := s4 p.1 (List.mem_map_of_mem hp)
+  rw [hpa] at hin ⊢
+  exact alg_of_not_dne hin (eliminated_now ho hw hj hc ha).1
+
+/-- `closed_step` for detect_aliases, any pass -/
+theorem alias_closed {I : Interp K} {E : Engine K} (hE : EngineOk I E) {allowDer : Bool} {m m' : Model K}
+    (ho : WF m.ar)
+    (hjo : JInv ⟨names m.states, names m.ders, names m.algs, names m.inputs, names m.params, names m.consts, allowDer⟩ m.ar)
+    (hc : Closed m)
+    (hnd : (names m.states ++ names m.ders ++ names m.algs ++ names m.inputs ++ names m.params ++ names m.consts).Nodup)
+    (h : detectAliases E allowDer m = .ok m') : Closed m' := by
+  refine alias_closed_of_kept hE h hc hnd ?_
+  intro kept ar l left hloop hel
+  obtain ⟨hw, hj, _, _⟩ := aliasLoop_inv E _ m.ar m.eqs 0 m.ar (kept, ar) hloop ho hjo (Ext.refl _)
+  obtain ⟨_, hdom⟩ := elimAliases_length m.ar ar ar.cv _ (l, left) hel hnd
+  intro c hcv hin
+  obtain ⟨p, hp, hpc⟩ := List.mem_map.1 hin
+  obtain ⟨c', hc', a, ha, hpa⟩ := hdom p hp
+  have := (eliminated_now ho hw hj hc' ha).2
+  rw [← hpa, hpc] at this
+  exact this hcv
+
+/-- `balance_step` for a first detect_aliases pass (empty alias relation) -/
+theorem alias_balanced_first {E : Engine K} {allowDer : Bool} {m m' : Model K} (hempty : m.ar = AR.empty)
+    (hnd : (names m.states ++ names m.ders ++ names m.algs ++ names m.inputs ++ names m.params ++ names m.consts).Nodup)
+    (h : detectAliases E allowDer m = .ok m') : Balanced m m' :=
+  alias_balanced (by rw [hempty]; exact wf_empty) (by rw [hempty]; exact jinv_empty _) hnd h
 
 /-- `closed_step` for a first detect_aliases pass -/
 theorem alias_closed_first {I : Interp K} {E : Engine K} (hE : EngineOk I E) {allowDer : Bool} {m m' : Model K}
     (hempty : m.ar = AR.empty) (hc : Closed m)
     (hnd : (names m.states ++ names m.ders ++ names m.algs ++ names m.inputs ++ names m.params ++ names m.consts).Nodup)
-    (h : detectAliases E allowDer m = .ok m') : Closed m' := by
-  refine alias_closed_of_kept hE h hc hnd ?_
-  intro kept ar l left hloop hel
-  rw [hempty] at hloop hel
-  obtain ⟨hw, hj, _⟩ := aliasLoop_inv E _ m.eqs 0 AR.empty (kept, ar) hloop wf_empty (jinv_empty _)
-  obtain ⟨_, hdom⟩ := elimAliases_length AR.empty ar ar.cv _ (l, left) hel hnd
-  intro c hcv hin
-  obtain ⟨p, hp, hpc⟩ := List.mem_map.1 hin
-  obtain ⟨c', hc', a, ha, hpa⟩ := hdom p hp
-  have := (first_pass_eliminated hw hj hc' ha).2
-  rw [← hpa, hpc] at this
-  exact this hcv
+    (h : detectAliases E allowDer m = .ok m') : Closed m' :=
+  alias_closed hE (by rw [hempty]; exact wf_empty) (by rw [hempty]; exact jinv_empty _) hc hnd h
 
 end PymocaVerif.Simplify
